@@ -22,6 +22,7 @@ fn run_hist<D: Driver>(opts: &RunOpts) -> i32 {
     let t0 = Instant::now();
     let outcome = match opts.mode.as_str() {
         "bfs" => engine::run_bfs::<D>(opts),
+        "sweep" => engine::run_sweep::<D>(opts),
         _ => engine::run_random::<D>(opts),
     };
     let ms = t0.elapsed().as_millis() as u64;
@@ -64,6 +65,9 @@ macro_rules! drivers {
             "mutex" => $f::<fiv::hist::mutex::MutexDriver>($($arg),*),
             "semaphore" => $f::<fiv::hist::semaphore::SemDriver>($($arg),*),
             "event" => $f::<fiv::hist::event::EventDriver>($($arg),*),
+            "ringbuf" => $f::<fiv::ds::ringbuf::RingbufDriver>($($arg),*),
+            "list" => $f::<fiv::ds::list::ListDriver>($($arg),*),
+            "heap" => $f::<fiv::ds::heap::HeapDriver>($($arg),*),
             "mpmc" => $f::<fiv::hist::mpmc::MpmcDriver>($($arg),*),
             "mpmc-bval" => $f::<fiv::hist::mpmc::MpmcBvalDriver>($($arg),*),
             "state" => $f::<fiv::hist::state::StateDriver>($($arg),*),
